@@ -8,32 +8,44 @@ import (
 	"verifharness/internal/rec"
 )
 
-// Family c12nest: the program family of Props/C12Nest (`nestProc d`: d sub-process levels around the task T, the task C
-// behind the outermost one), with the SAME element names, run by the real engine at depth 1..10 (thorough: also 16, 24,
-// 32). The Lean driver runs `nestProc d` — the very object of the theorems `nest_run` / `nestProc_run_current` — at the
-// extracted configuration and compares step by step: what is requested, how many inner end events complete and in which
-// order, whether the instance ceases.
+// Family c12nest: the program family of Props/C12Nest (`nestProc d K`: d sub-process levels around the chain of K tasks
+// T -> Tx -> Txx …, the task C behind the outermost level), with the SAME element names, run by the real engine at depth
+// 1..10 x chain length 1..4 (thorough: also depth 16, 24, 32 and length 8). The Lean driver runs `nestProc d K` — the very
+// object of the theorems `nest_run` / `nestProc_run_current` — at the extracted configuration and compares step by step:
+// what is requested, which inner end events complete and in which order, whether the instance ceases.
 //
-//	s -> U[ S -> Ux[ Sx -> ... T ... -> Ex ] -> E ] -> C -> e
+//	s -> U[ S -> Ux[ Sx -> ... T -> Tx ... -> Ex ] -> E ] -> C -> e
 func init() {
 	caseFamilies["c12nest"] = &caseFamily{
 		Shard: 1, Par: 6,
 		Count: func(tier string) int { return len(c12nestDepths(tier)) },
 		Run: func(out *rec.Out, idx int, rng *rec.Rng, tier string, stats map[string]int) {
-			c12nestRun(out, c12nestDepths(tier)[idx], stats)
+			c := c12nestDepths(tier)[idx]
+			c12nestRun(out, c[0], c[1], stats)
 		},
 	}
 }
 
-func c12nestDepths(tier string) []int {
+func c12nestDepths(tier string) [][2]int {
 	ds := []int{1, 2, 3, 4, 5, 6, 7, 8, 9, 10}
+	ks := []int{1, 2, 3, 4}
 	if tier == "thorough" {
 		ds = append(ds, 16, 24, 32)
+		ks = append(ks, 8)
 	}
-	return ds
+	var cs [][2]int
+	for _, d := range ds {
+		for _, k := range ks {
+			if tier != "thorough" && k > 1 && (d+k)%3 != 0 {
+				continue
+			}
+			cs = append(cs, [2]int{d, k})
+		}
+	}
+	return cs
 }
 
-func c12nestRun(out *rec.Out, d int, stats map[string]int) {
+func c12nestRun(out *rec.Out, d, k int, stats map[string]int) {
 	nm := func(c string, i int) string { return c + strings.Repeat("x", i) }
 	g := eng.NewGraph()
 	st := g.Add("startEvent", "s", "")
@@ -47,7 +59,13 @@ func c12nestRun(out *rec.Out, d int, stats map[string]int) {
 		}
 		subs[i] = g.Add("subProcess", nm("U", i), parent)
 	}
-	t := g.Add("task", "T", subs[d-1].ID)
+	ts := make([]*eng.Node, k)
+	for i := 0; i < k; i++ {
+		ts[i] = g.Add("task", nm("T", i), subs[d-1].ID)
+		if i > 0 {
+			g.Connect(ts[i-1], ts[i], nil)
+		}
+	}
 	for i := 0; i < d; i++ {
 		is := g.Add("startEvent", nm("S", i), subs[i].ID)
 		ie := g.Add("endEvent", nm("E", i), subs[i].ID)
@@ -55,15 +73,15 @@ func c12nestRun(out *rec.Out, d int, stats map[string]int) {
 			g.Connect(is, subs[i+1], nil)
 			g.Connect(subs[i+1], ie, nil)
 		} else {
-			g.Connect(is, t, nil)
-			g.Connect(t, ie, nil)
+			g.Connect(is, ts[0], nil)
+			g.Connect(ts[k-1], ie, nil)
 		}
 	}
 	g.Connect(st, subs[0], nil)
 	g.Connect(subs[0], c, nil)
 	g.Connect(c, en, nil)
 
-	out.Begin("c12nest", d)
+	out.Begin("c12nest", d, k)
 	defer out.End()
 	in, _, err := eng.Start(g.XML(), nil)
 	if err != nil {
@@ -72,6 +90,7 @@ func c12nestRun(out *rec.Out, d int, stats map[string]int) {
 	}
 	stats["cases"]++
 	stats[fmt.Sprintf("depth_%d", d)]++
+	stats[fmt.Sprintf("chain_%d", k)]++
 	answer := func(node string) {
 		if !in.Quiesce(6 * timeSecond) {
 			in.Note("obs noquiesce")
@@ -86,7 +105,9 @@ func c12nestRun(out *rec.Out, d int, stats map[string]int) {
 		}
 		in.Note("obs norequest %s", node)
 	}
-	answer("T")
+	for i := 0; i < k; i++ {
+		answer(nm("T", i))
+	}
 	answer("C")
 	in.Quiesce(6 * timeSecond)
 	for _, l := range in.Lines() {
